@@ -597,6 +597,8 @@ func worker(lo, hi int, tamperEvery int) {
 
 func main() {
 	r = mon.Start("C14", "exploration")
+	// a local zone that is not UTC: tick conversions must not depend on it
+	time.Local = time.FixedZone("VERIF+0545", 5*3600+45*60)
 	r.SetExhaustive(true)
 	r.Rule("Credentials built with NewKeyCredential from boundary and seeded RSA material (modulus 1..512 octets incl. leading zero / all-ones, exponents 1..2^32-1, primes absent / both / one), the three versions, boundary and random device GUIDs and tick values: the blob is read by an independent MS-ADTS parser, parsed back by the library, re-serialised, integrity-checked; reference-built blobs with other usages/sources/CustomKeyInformation forms are read, re-serialised and integrity-checked by the library; DN-with-binary strings over DNs containing ':' ',' '\\' '=' '+' and non-ASCII. Exhaustive sub-domain: EVERY single-bit flip of every blob selected for tampering (all boundary credentials, every k-th random one). Non-trivial: each distinct credential (version, exponent, modulus, primes, device, ticks), reference blob variant, and DN string. State monitors (state.go): one KeyCredential reused as the parse target over chains of pool blobs (largest/smallest alternating, pool order, seeded permutations): genuine blob checked, single-bit-tampered copies of it into the same target, genuine again, a target built by NewKeyCredential; the same for RSAKeyMaterial, CustomKeyInformation and DNWithBinary targets; fields assigned and serialised with no call in between; returned slices held and re-compared. Each (chain, blob, step kind) counts once.")
 	r.Assume(
